@@ -1319,13 +1319,33 @@ fn random_case(ctx: &mut Ctx) {
 /// random concurrent Elias–Fano build: monotone values, random partition of the indices
 fn random_ef(ctx: &mut Ctx) {
     let n = 1 + ctx.rng.usize_below(12);
-    let u = match ctx.rng.below(5) {
+    let u = match ctx.rng.below(7) {
         0 => ctx.rng.usize_below(n + 1),
         1 => n + ctx.rng.usize_below(4 * n),
         2 => 1 << (3 + ctx.rng.usize_below(20)),
+        // universes close to `usize::MAX` (documented as supported): `value + (index << l)` and
+        // similar folded forms do not fit a word there
+        3 => match ctx.rng.below(3) {
+            0 => usize::MAX,
+            1 => 1usize << 63,
+            _ => (1usize << 63) + ctx.rng.usize_below(1usize << 62),
+        },
         _ => n * (1 + ctx.rng.usize_below(300)),
     };
-    let mut xs: Vec<usize> = (0..n).map(|_| ctx.rng.usize_below(u + 1)).collect();
+    let huge = u >= 1usize << 63;
+    let mut xs: Vec<usize> = (0..n)
+        .map(|_| {
+            if huge {
+                match ctx.rng.below(3) {
+                    0 => ctx.rng.usize_below(1000),
+                    1 => u - ctx.rng.usize_below(1000),
+                    _ => ((ctx.rng.next_u64() as u128) % (u as u128 + 1)) as usize,
+                }
+            } else {
+                ctx.rng.usize_below(u + 1)
+            }
+        })
+        .collect();
     xs.sort();
     if ctx.rng.chance(1, 4) {
         xs[n - 1] = u;
@@ -1354,13 +1374,13 @@ fn random_ef(ctx: &mut Ctx) {
                 ys.pop();
             }
             1 => ys.push(u),
-            2 => ys[n - 1] = u + 1,
+            2 if u < usize::MAX => ys[n - 1] = u + 1,
             _ => ys.reverse(),
         }
         emit_efseq(ctx, n, u, &ys);
     }
     let (l, _, _, _) = ef_shape(n, u);
-    ctx.shape(format!("rnd:ef:l{}:{}", if l == 0 { "0".into() } else if l < 8 { "small".to_string() } else { "big".into() }, nthreads));
+    ctx.shape(format!("rnd:ef:l{}:{}", if l == 0 { "0".into() } else if l < 8 { "small".to_string() } else if huge { "huge".into() } else { "big".into() }, nthreads));
 }
 
 pub fn run(ctx: &mut Ctx) {
